@@ -37,10 +37,14 @@ theorem limbs32_n10 (m : Nat → Word) (p : Nat) : limbs32 m p 10 =
     [(m (p + 0)).toNat, (m (p + 4)).toNat, (m (p + 8)).toNat, (m (p + 12)).toNat, (m (p + 16)).toNat, (m (p + 20)).toNat, (m (p + 24)).toNat, (m (p + 28)).toNat, (m (p + 32)).toNat, (m (p + 36)).toNat] := rfl
 theorem limbs32_n11 (m : Nat → Word) (p : Nat) : limbs32 m p 11 =
     [(m (p + 0)).toNat, (m (p + 4)).toNat, (m (p + 8)).toNat, (m (p + 12)).toNat, (m (p + 16)).toNat, (m (p + 20)).toNat, (m (p + 24)).toNat, (m (p + 28)).toNat, (m (p + 32)).toNat, (m (p + 36)).toNat, (m (p + 40)).toNat] := rfl
+theorem limbs32_n12 (m : Nat → Word) (p : Nat) : limbs32 m p 12 =
+    [(m (p + 0)).toNat, (m (p + 4)).toNat, (m (p + 8)).toNat, (m (p + 12)).toNat, (m (p + 16)).toNat, (m (p + 20)).toNat, (m (p + 24)).toNat, (m (p + 28)).toNat, (m (p + 32)).toNat, (m (p + 36)).toNat, (m (p + 40)).toNat, (m (p + 44)).toNat] := rfl
 theorem limbs32_n22 (m : Nat → Word) (p : Nat) : limbs32 m p 22 =
     [(m (p + 0)).toNat, (m (p + 4)).toNat, (m (p + 8)).toNat, (m (p + 12)).toNat, (m (p + 16)).toNat, (m (p + 20)).toNat, (m (p + 24)).toNat, (m (p + 28)).toNat, (m (p + 32)).toNat, (m (p + 36)).toNat, (m (p + 40)).toNat, (m (p + 44)).toNat, (m (p + 48)).toNat, (m (p + 52)).toNat, (m (p + 56)).toNat, (m (p + 60)).toNat, (m (p + 64)).toNat, (m (p + 68)).toNat, (m (p + 72)).toNat, (m (p + 76)).toNat, (m (p + 80)).toNat, (m (p + 84)).toNat] := rfl
 theorem limbs32_n23 (m : Nat → Word) (p : Nat) : limbs32 m p 23 =
     [(m (p + 0)).toNat, (m (p + 4)).toNat, (m (p + 8)).toNat, (m (p + 12)).toNat, (m (p + 16)).toNat, (m (p + 20)).toNat, (m (p + 24)).toNat, (m (p + 28)).toNat, (m (p + 32)).toNat, (m (p + 36)).toNat, (m (p + 40)).toNat, (m (p + 44)).toNat, (m (p + 48)).toNat, (m (p + 52)).toNat, (m (p + 56)).toNat, (m (p + 60)).toNat, (m (p + 64)).toNat, (m (p + 68)).toNat, (m (p + 72)).toNat, (m (p + 76)).toNat, (m (p + 80)).toNat, (m (p + 84)).toNat, (m (p + 88)).toNat] := rfl
+theorem limbs32_n24 (m : Nat → Word) (p : Nat) : limbs32 m p 24 =
+    [(m (p + 0)).toNat, (m (p + 4)).toNat, (m (p + 8)).toNat, (m (p + 12)).toNat, (m (p + 16)).toNat, (m (p + 20)).toNat, (m (p + 24)).toNat, (m (p + 28)).toNat, (m (p + 32)).toNat, (m (p + 36)).toNat, (m (p + 40)).toNat, (m (p + 44)).toNat, (m (p + 48)).toNat, (m (p + 52)).toNat, (m (p + 56)).toNat, (m (p + 60)).toNat, (m (p + 64)).toNat, (m (p + 68)).toNat, (m (p + 72)).toNat, (m (p + 76)).toNat, (m (p + 80)).toNat, (m (p + 84)).toNat, (m (p + 88)).toNat, (m (p + 92)).toNat] := rfl
 
 set_option maxHeartbeats 1600000 in
 /-- row 1 of the triangle: `tmp[1..2] := a[1]·a[0..1) + tmp[1..1)` -/
@@ -1127,7 +1131,7 @@ theorem sqPart2_run (r0 r1 r2 r3 r4 r5 r6 r7 r8 r9 r10 r11 r12 sp lr : Word) (nf
     (ht : Span rd wr sp.toNat 24 true) :
     ∃ (x0 x1 x2 x3 x4 x5 x6 x7 : Word) (n z c v : Option Bool) (m' : Nat → Word),
       runL Code.square768part2 ⟨r0, r1, r2, r3, r4, r5, r6, r7, r8, r9, r10, r11, r12, sp, lr, nf, zf, cf, vf, m, rd, wr, pc, .running, csm⟩
-        = ⟨x0, x1, x2, x3, x4, x5, x6, x7, r8, r9, r10, r11, r12, sp, lr, n, z, c, v, m', rd, wr, pc + 40, .running, csm⟩ ∧
+        = ⟨x0, x1, x2, x3, x4, x5, x6, x7, r8, r9, r10, r11, r12, sp, lr, n, z, c, v, m', rd, wr, pc + 35, .running, csm⟩ ∧
       (∀ k, ¬(sp.toNat ≤ k ∧ k < sp.toNat + 96) → m' k = m k) ∧
       val (2 ^ 32) (limbs32 m' sp.toNat 24) = 2 * (2 ^ 32 * val (2 ^ 32) (limbs32 m (sp.toNat + 4) 22)) := by
   have t_lt0 : sp.toNat < 2 ^ 32 := ht.lt_0 (by decide)
@@ -1279,7 +1283,7 @@ theorem sqPart2_run (r0 r1 r2 r3 r4 r5 r6 r7 r8 r9 r10 r11 r12 sp lr : Word) (nf
   refine ⟨_, _, _, _, _, _, _, _, _, _, _, _, _, rfl, ?_, ?_⟩
   · intro k hk
     simp (disch := (clear * - hk; omega)) only [setMem_ne]
-  · simp only [limbs32_24, limbs32_n22, nat_add_add, Nat.reduceAdd, Nat.add_zero, ← hd1, ← hd2, ← hd3, ← hd4, ← hd5, ← hd6, ← hd7, ← hd8, ← hd9, ← hd10, ← hd11, ← hd12, ← hd13, ← hd14, ← hd15, ← hd16, ← hd17, ← hd18, ← hd19, ← hd20, ← hd21, ← hd22]
+  · simp only [limbs32_n24, limbs32_n22, nat_add_add, Nat.reduceAdd, Nat.add_zero, ← hd1, ← hd2, ← hd3, ← hd4, ← hd5, ← hd6, ← hd7, ← hd8, ← hd9, ← hd10, ← hd11, ← hd12, ← hd13, ← hd14, ← hd15, ← hd16, ← hd17, ← hd18, ← hd19, ← hd20, ← hd21, ← hd22]
     simp (disch := (clear * -; omega)) only [setMem_eq, setMem_ne]
     have e1 := awc_spec d1 d1 false; rw [← hu1] at e1
     have e2 := awc_spec d2 d2 u1.c; rw [← hu2] at e2
